@@ -141,6 +141,9 @@ class Parser(object):
                     self._parser_check(self._is_type_sizer_compatible(bound.type_name),
                                        "Sizer of '{}' has to be of (unsigned) integer type".format(name),
                                        line, pos)
+                    self._parser_check(not bound.optional and not bound.is_array,
+                                       "Sizer of '{}' has to be a plain field".format(name),
+                                       line, pos)
                 else:
                     self._parser_error("Sizer of '{}' has to be defined before the array".format(name),
                                        line, pos)
@@ -151,6 +154,25 @@ class Parser(object):
                 "greedy array field '{}' not last".format(member.name),
                 line, pos
             )
+
+        for member, line, pos in members:
+            if member.is_array:
+                self._parser_check(
+                    member.kind != model.Kind.UNLIMITED,
+                    "array '{}' of unlimited type".format(member.name),
+                    line, pos
+                )
+                self._parser_check(
+                    not member.size or member.kind == model.Kind.FIXED,
+                    "fixed or limited array '{}' of dynamic type".format(member.name),
+                    line, pos
+                )
+            if member.optional:
+                self._parser_check(
+                    member.kind == model.Kind.FIXED,
+                    "optional field '{}' of dynamic type".format(member.name),
+                    line, pos
+                )
 
     def _is_type_sizer_compatible(self, typename):
         if typename in {type_ + width for type_ in 'ui' for width in ['8', '16', '32', '64']}:
@@ -229,6 +251,11 @@ class Parser(object):
 
     def p_enum_member(self, t):
         '''enum_member : unique_id EQUALS expression'''
+        self._parser_check(
+            0 <= t[3] < (1 << 32),
+            "enumerator '{}' value out of 32-bit unsigned range".format(t[1]),
+            t.lineno(1), t.lexpos(1)
+        )
         member = model.EnumMember(t[1], str(t[3]))
         self.constdecls[t[1]] = member
         t[0] = member
@@ -352,6 +379,11 @@ class Parser(object):
 
     def p_union_member(self, t):
         '''union_member : expression COLON type_spec ID'''
+        self._parser_check(
+            0 <= t[1] < (1 << 32),
+            "discriminator of '{}' out of 32-bit unsigned range".format(t[4]),
+            t.lineno(4), t.lexpos(4)
+        )
         t[0] = (model.UnionMember(t[4], t[3][0], str(t[1]), definition=t[3][1]), t.lineno(4), t.lexpos(4))
 
     def p_type_spec_1(self, t):
